@@ -244,6 +244,8 @@ class ScriptedSelector:
 
     def close(self):
         self.closed = True
+        if self.k.log_selects:
+            self.k.log.append((self.k.now, "poller-closed"))
 
     def get_map(self):
         return self.map
@@ -498,6 +500,10 @@ class Kernel:
         self.drain_ticks = 0
         self.stop_requested_at = None
         self.worker_connections = cfgset.get("worker_connections", 1000)
+        # opt-in (cfgset "_log_selects"): every select() result that names accepted connections is written to the log as
+        # (now, "select-returned", [(cid, unread request bytes, client still connected)], worker.alive), and the closing of the
+        # poller as (now, "poller-closed"): lets a check see whether an event the loop was handed was acted upon
+        self.log_selects = bool(cfgset.get("_log_selects", False))
         self.seq = 0
         self.keepalive = cfgset.get("keepalive", 2)
         self.threads = cfgset.get("threads", 1)
@@ -665,7 +671,7 @@ class Kernel:
             self.check_invariants("select")
             ready = self.ready_keys(sel)
             if ready:
-                return ready
+                return self._handed(ready)
             waited = 0.0
             limit = timeout if timeout is not None else 1.0
             while waited < limit - 1e-9:
@@ -689,7 +695,15 @@ class Kernel:
             # handlers may have been unblocked by the step
         self.wait_quiescent()
         with self.cond:
-            return self.ready_keys(sel)
+            return self._handed(self.ready_keys(sel))
+
+    def _handed(self, ready):
+        if self.log_selects:
+            socks = [(key.fileobj.cid, len(key.fileobj.conn.inbuf), not key.fileobj.conn.peer_closed)
+                     for key, _ in ready if isinstance(key.fileobj, ScriptedSocket)]
+            if socks:
+                self.log.append((self.now, "select-returned", socks, bool(self.worker is not None and self.worker.alive)))
+        return ready
 
     def loop_wait(self, fs, timeout, return_when):
         fs = list(fs)
